@@ -22,7 +22,7 @@ PlaceN  == <<1, 2, 3, 4, 6, 7, 9>>
 Unused == {}
 
 TInit == /\ tid \in 1..NT /\ l = 1
-         /\ InitWith(Traces[tid].track, {Traces[tid].sflags[i] : i \in 1..Len(Traces[tid].sflags)})
+         /\ InitWith(Traces[tid].track, {Traces[tid].sflags[i] : i \in 1..Len(Traces[tid].sflags)}, Traces[tid].db)
 Ev == Traces[tid].ev[l]
 A  == Ev.a
 Step ==
@@ -31,9 +31,12 @@ Step ==
     \/ A.n = "add"     /\ (Add(A.a, A.l, A.how) \/ AddOccupied(A.a, A.l))
     \/ A.n = "remove"  /\ RemoveAsm(A.a, A.d)
     \/ A.n = "dswap"   /\ (DischargeSwap(A.i, A.o) \/ DischargeMismatch(A.i, A.o))
-ObsMatch == \/ Obs' = Ev.post
-            \/ /\ Obs' # Ev.post
-               /\ PrintT(ToJson([mismatch |-> Traces[tid].id, at |-> l, act |-> act', expected |-> Obs']))
+    \/ A.n = "repeat"  /\ Repeat(A.load, A.loops)
+    \/ A.n = "locate"  /\ Locate
+    \/ A.n = "ask"     /\ Ask
+ObsMatch == \/ ObsQ(act)' = Ev.post
+            \/ /\ ObsQ(act)' # Ev.post
+               /\ PrintT(ToJson([mismatch |-> Traces[tid].id, at |-> l, act |-> act', expected |-> ObsQ(act)']))
                /\ FALSE
 TNext == /\ l <= Len(Traces[tid].ev) /\ l' = l + 1 /\ tid' = tid
          /\ Step
@@ -43,5 +46,5 @@ Progress == IF TLCGet(tid) < l THEN TLCSet(tid, l) ELSE TRUE
 Report == LET bad == {t \in 1..NT : TLCGet(t) # Len(Traces[t].ev) + 1} IN
           /\ \A t \in bad : PrintT(ToJson([rejected |-> Traces[t].id, matched |-> TLCGet(t) - 1]))
           /\ PrintT(ToJson([accepted |-> NT - Cardinality(bad), of |-> NT]))
-ASSUME PrintT(ToJson([config |-> Config]))
+ASSUME PrintT(ToJson([config |-> Config, noAnswer |-> NoAnswer]))
 ========================================================================================================
